@@ -423,11 +423,14 @@ impl FmtArgument {
 impl Parse for FmtArgument {
     fn parse(input: ParseStream) -> syn::Result<Self> {
         Ok(Self {
-            alias: (input.peek(syn::Ident)
+            // The name of an argument may be a keyword too (`"{type}", type = ..`).
+            alias: (input.peek(syn::Ident::peek_any)
                 && input.peek2(token::Eq)
                 && !input.peek2(token::EqEq)
                 && !input.peek2(token::FatArrow))
-                .then(|| Ok::<_, syn::Error>((input.parse()?, input.parse()?)))
+                .then(|| {
+                    Ok::<_, syn::Error>((syn::Ident::parse_any(input)?, input.parse()?))
+                })
                 .transpose()?,
             expr: input.parse()?,
         })
